@@ -82,6 +82,11 @@ type c08plan struct {
 	subIDs         []int // subscription ids in use (GetSubscriptionMessages for each at the end)
 	faultAt        int   // > 0: the transport starts failing every read right before call faultAt
 	quotes         int   // directed: 1 = replies carry message-id='N', 2 = message-id = "N"
+	// driver options the routing must not depend on (0 / "" = the library's default)
+	searchDepth int    // options.WithPromptSearchDepth
+	readDelayUs int    // options.WithReadDelay, microseconds (0: 50)
+	readSize    int    // options.WithTransportReadSize
+	returnChar  string // options.WithReturnChar (1.0, non-echoing sessions only)
 }
 
 func c08Payload(r *vlib.Rng, v11 bool, bait int) []byte {
@@ -454,6 +459,157 @@ func c08AddCoverage(p *c08plan, h *vlib.Rng) {
 	}
 }
 
+const c08StdOpen = `<rpc-reply xmlns="urn:ietf:params:xml:ns:netconf:base:1.0" message-id="` + c08IDToken + `">`
+
+// c08MoveID rewrites the opening tag of a generated reply so that the message-id attribute stands
+// somewhere else: 1 first, 2 after k other attributes, 3 / 4 after >= 1000 / >= 5000 bytes of
+// namespace declarations, 5 on an element with the nc: prefix.
+func c08MoveID(payload []byte, kind int, h *vlib.Rng) []byte {
+	i := bytes.Index(payload, []byte(c08StdOpen))
+	if i < 0 || kind == 0 {
+		return payload
+	}
+	id := `message-id="` + c08IDToken + `"`
+	ns := `xmlns="urn:ietf:params:xml:ns:netconf:base:1.0"`
+	var open string
+	closeTag := ""
+	switch kind {
+	case 1:
+		open = "<rpc-reply " + id + " " + ns + ">"
+	case 2:
+		open = "<rpc-reply " + ns
+		for k, n := 0, h.Range(1, 40); k < n; k++ {
+			open += fmt.Sprintf(` a%d="v%d"`, k, h.Intn(1000))
+		}
+		open += " " + id + ">"
+	case 3, 4:
+		want := 1000
+		if kind == 4 {
+			want = 5000
+		}
+		open = "<rpc-reply " + ns
+		for k := 0; len(open) < want+40; k++ {
+			open += fmt.Sprintf(` xmlns:m%d="urn:example:params:xml:ns:yang:module-%d"`, k, k)
+			if k%7 == 6 {
+				open += "\n  "
+			}
+		}
+		open += " " + id + ">"
+	default:
+		open = `<nc:rpc-reply xmlns:nc="urn:ietf:params:xml:ns:netconf:base:1.0" ` + id + ">"
+		closeTag = "</nc:rpc-reply>"
+	}
+	out := append(append(append([]byte{}, payload[:i]...), open...), payload[i+len(c08StdOpen):]...)
+	if closeTag != "" {
+		if j := bytes.LastIndex(out, []byte("</rpc-reply>")); j >= 0 {
+			out = append(append(append([]byte{}, out[:j]...), closeTag...), out[j+len("</rpc-reply>"):]...)
+		}
+	}
+	return out
+}
+
+// c08Filler is n bytes of harmless reply content (no delimiter, no line starting with #).
+func c08Filler(n int, h *vlib.Rng) []byte {
+	var b bytes.Buffer
+	for k := 0; b.Len() < n; k++ {
+		fmt.Fprintf(&b, "<interface><name>eth%d</name><mtu>%d</mtu><description>%s</description></interface>\n", k, 1000+h.Intn(9000), h.Bytes(h.Range(10, 60), []byte("abcdefghijklmnopqrstuvwxyz ")))
+	}
+	return b.Bytes()
+}
+
+// c08AddRouting decorates a plan with the dimensions the routing of a complete message must not
+// depend on (own random stream): where in the reply the message-id attribute stands, how large the
+// reply is, and the driver options PromptSearchDepth / ReadDelay / TransportReadSize / ReturnChar.
+func c08AddRouting(p *c08plan, h *vlib.Rng, thorough bool) {
+	for k := range p.calls {
+		c := &p.calls[k]
+		kind := 0
+		switch g := h.Intn(40); {
+		case g < 4:
+			kind = 1
+		case g < 10:
+			kind = 2
+		case g < 14:
+			kind = 3
+		case g == 14:
+			kind = 4
+		case g < 20:
+			kind = 5
+		}
+		if kind != 0 && c.subID == 0 && bytes.Contains(c.payload, []byte(c08StdOpen)) {
+			c.payload = c08MoveID(c.payload, kind, h)
+			if p.v11 && len(c.chunks) > 0 {
+				c.chunks = c08KeepIDWhole(c.payload, c.chunks)
+			}
+		}
+	}
+	switch h.Intn(6) {
+	case 0:
+		p.searchDepth = h.Range(16, 80)
+	case 1:
+		p.searchDepth = 1 << 20
+	}
+	switch h.Intn(8) {
+	case 0:
+		p.readSize = 64
+	case 1:
+		p.readSize = 1024
+	case 2:
+		p.readSize = 65535
+	}
+	switch h.Intn(10) {
+	case 0:
+		p.readDelayUs = 10
+	case 1:
+		p.readDelayUs = 500
+	case 2:
+		p.readDelayUs = 2000
+	}
+	if !p.v11 && p.echo == sim.C08EchoOff && p.faultAt == 0 && h.Chance(1, 3) {
+		p.returnChar = h.Pick([]string{"\n\n", "\r\n"})
+	}
+	bigOdds := 30
+	if thorough {
+		bigOdds = 12
+	}
+	if h.Chance(1, bigOdds) && p.readSize != 64 {
+		// one reply of 100..300 KB
+		var cand []int
+		for k, c := range p.calls {
+			if c.mode == 0 && c.subID == 0 && !c.writeFail && !c.writeFailFinal && bytes.HasSuffix(c.payload, []byte("</rpc-reply>")) {
+				cand = append(cand, k)
+			}
+		}
+		if len(cand) > 0 {
+			c := &p.calls[cand[h.Intn(len(cand))]]
+			j := len(c.payload) - len("</rpc-reply>")
+			c.payload = append(append(append([]byte{}, c.payload[:j]...), c08Filler(h.Range(100, 300)*1024, h)...), "</rpc-reply>"...)
+			c.chunks = nil
+			if p.v11 && h.Bool() {
+				c.chunks = []int{h.Range(1000, 70000), h.Range(1000, 70000)}
+				c.chunks = c08KeepIDWhole(c.payload, c.chunks)
+			}
+			c.timeoutMs, c.useDefault = 4000, false
+			p.seg = []int{1 << 20}
+			if p.readDelayUs > 500 {
+				p.readDelayUs = 500
+			}
+		}
+	}
+	if p.readDelayUs >= 500 {
+		// slow polling: few reads per message and timeouts that leave room for them
+		p.seg = []int{1 << 20}
+		for k := range p.calls {
+			if p.calls[k].timeoutMs < 250 {
+				p.calls[k].timeoutMs = 250
+			}
+		}
+		if p.opsMs > 0 && p.opsMs < 250 {
+			p.opsMs = 250
+		}
+	}
+}
+
 func c08HistoryPlan(name string, v11 bool, echo int, spec []int) c08plan {
 	// spec: per call 4 numbers: mode, timeoutMs (0 = driver TimeoutOps), idleFactor
 	p := c08plan{name: name, v11: v11, echo: echo, seg: []int{1 << 20}, opsMs: 150}
@@ -498,7 +654,46 @@ func c08Directed(name string) (c08plan, bool) {
 		}
 		return p
 	}
+	stdPayload := func(extra string) []byte { return []byte(c08StdOpen + "<ok/>" + extra + "</rpc-reply>") }
 	switch name {
+	case "id-after-1000-bytes-of-xmlns-10", "id-after-1000-bytes-of-xmlns-11", "id-after-5000-bytes-of-xmlns-11", "id-on-nc-prefixed-reply", "id-after-40-attributes":
+		p := mkCalls(c08plan{name: name, v11: !strings.HasSuffix(name, "-10")}, 0, 1, 0)
+		kind := map[string]int{"id-after-1000-bytes-of-xmlns-10": 3, "id-after-1000-bytes-of-xmlns-11": 3, "id-after-5000-bytes-of-xmlns-11": 4, "id-on-nc-prefixed-reply": 5, "id-after-40-attributes": 2}[name]
+		h := vlib.NewRng(uint64(kind))
+		for k := range p.calls {
+			p.calls[k].payload = c08MoveID(stdPayload(""), kind, h)
+		}
+		p.calls[2].before = []int{1}
+		return p, true
+	case "search-depth-tiny-10", "search-depth-tiny-11", "search-depth-huge":
+		p := mkCalls(c08plan{name: name, v11: name != "search-depth-tiny-10", searchDepth: 40, echo: sim.C08EchoSep}, 0, 0, 1, 0)
+		if name == "search-depth-huge" {
+			p.searchDepth = 1 << 20
+		}
+		for k := range p.calls {
+			p.calls[k].payload = stdPayload("")
+		}
+		p.calls[3].before = []int{2}
+		return p, true
+	case "read-size-64-read-delay-10us":
+		p := mkCalls(c08plan{name: name, v11: true, readSize: 64, readDelayUs: 10}, 0, 0, 0)
+		for k := range p.calls {
+			p.calls[k].payload = stdPayload("<data>x</data>")
+		}
+		return p, true
+	case "return-char-crlf-10":
+		p := mkCalls(c08plan{name: name, v11: false, returnChar: "\r\n"}, 0, 1, 0)
+		p.calls[1].release = []int{1}
+		return p, true
+	case "reply-of-300-kilobytes-10", "reply-of-300-kilobytes-11":
+		p := mkCalls(c08plan{name: name, v11: strings.HasSuffix(name, "-11")}, 0, 0, 0)
+		h := vlib.NewRng(7)
+		p.calls[1].payload = stdPayload(string(c08Filler(300*1024, h)))
+		p.calls[1].timeoutMs = 4000
+		if p.v11 {
+			p.calls[1].chunks = []int{65000, 65000, 65000}
+		}
+		return p, true
 	case "notif-interleaved-10", "notif-interleaved-11":
 		p := mkCalls(c08plan{name: name, v11: name == "notif-interleaved-11", echo: sim.C08EchoSep, subIDs: []int{7, 4242}, seg: []int{37, 1 << 20}}, 0, 1, 0, 2, 0)
 		n := func(sub, seq, msgid int) c08notif {
@@ -617,7 +812,9 @@ func c08Directed(name string) (c08plan, bool) {
 	return c08plan{}, false
 }
 
-var c08DirectedNames = []string{"notif-interleaved-10", "notif-interleaved-11", "notif-with-old-message-id-text", "notif-with-live-message-id-text", "id-single-quotes",
+var c08DirectedNames = []string{"id-after-1000-bytes-of-xmlns-10", "id-after-1000-bytes-of-xmlns-11", "id-after-5000-bytes-of-xmlns-11", "id-on-nc-prefixed-reply",
+	"id-after-40-attributes", "search-depth-tiny-10", "search-depth-tiny-11", "search-depth-huge", "read-size-64-read-delay-10us", "return-char-crlf-10",
+	"reply-of-300-kilobytes-10", "reply-of-300-kilobytes-11", "notif-interleaved-10", "notif-interleaved-11", "notif-with-old-message-id-text", "notif-with-live-message-id-text", "id-single-quotes",
 	"id-spaces-around-equals", "ids-beyond-1000", "write-failure-consumes-id", "final-return-write-fails-11", "read-fault-midsession", "late-replies-out-of-order",
 	"force-self-closing-tags", "matrix-both-preferred-10", "matrix-both-preferred-11", "matrix-both-unset", "matrix-11-only",
 	"matrix-10-only-preferred-10", "echo-coalesced-10", "echo-coalesced-11", "echo-coalesced-part-of-reply", "echo-coalesced-split-echo",
@@ -735,8 +932,21 @@ func c08Execute(p c08plan, tscale int) (run c08run) {
 	}
 	srv.IDToken = []byte(c08IDToken)
 	srv.Start()
+	rd := 50
+	if p.readDelayUs > 0 {
+		rd = p.readDelayUs
+	}
 	dopts := []util.Option{options.WithCustomTransport(srv), options.WithAuthBypass(),
-		options.WithTimeoutOps(2 * time.Second), options.WithReadDelay(50 * time.Microsecond)}
+		options.WithTimeoutOps(2 * time.Second), options.WithReadDelay(time.Duration(rd) * time.Microsecond)}
+	if p.searchDepth > 0 {
+		dopts = append(dopts, options.WithPromptSearchDepth(p.searchDepth))
+	}
+	if p.readSize > 0 {
+		dopts = append(dopts, options.WithTransportReadSize(p.readSize))
+	}
+	if p.returnChar != "" {
+		dopts = append(dopts, options.WithReturnChar(p.returnChar))
+	}
 	if p.matrix && p.preferred != "" {
 		dopts = append(dopts, options.WithNetconfPreferredVersion(p.preferred))
 	}
@@ -1047,8 +1257,8 @@ var (
 	c08ReDelim11 = regexp.MustCompile(`(?m)^##$`)
 	// the oracle's reading of "the first message-id attribute" of a returned message: any legal
 	// XML spelling of the attribute (either quote character, white space around `=`)
-	c08ReMsgID   = regexp.MustCompile(`(?i)(?:message-id\s*=\s*["'](\d+)["'])`)
-	c08ReSubID   = regexp.MustCompile(`(?i)<subscription-id.*>(\d+)</subscription-id>`)
+	c08ReMsgID = regexp.MustCompile(`(?i)(?:message-id\s*=\s*["'](\d+)["'])`)
+	c08ReSubID = regexp.MustCompile(`(?i)<subscription-id.*>(\d+)</subscription-id>`)
 )
 
 var (
@@ -1214,6 +1424,7 @@ func runC08(c *ctx) {
 			c08AddHistory(&pp, vlib.NewRng(seed^0x5bd1e9955bd1e995))
 			c08AddMatrix(&pp, vlib.NewRng(seed^0x27d4eb2f165667c5))
 			c08AddCoverage(&pp, vlib.NewRng(seed^0x94d049bb133111eb))
+			c08AddRouting(&pp, vlib.NewRng(seed^0xd6e8feb86659fd93), c.thorough())
 			pp.name = fmt.Sprintf("seed-%d", seed)
 			jobs = append(jobs, job{c.replay, pp})
 		}
@@ -1233,6 +1444,7 @@ func runC08(c *ctx) {
 			c08AddHistory(&p, vlib.NewRng(seed^0x5bd1e9955bd1e995))
 			c08AddMatrix(&p, vlib.NewRng(seed^0x27d4eb2f165667c5))
 			c08AddCoverage(&p, vlib.NewRng(seed^0x94d049bb133111eb))
+			c08AddRouting(&p, vlib.NewRng(seed^0xd6e8feb86659fd93), c.thorough())
 			p.name = fmt.Sprintf("seed-%d", seed)
 			jobs = append(jobs, job{fmt.Sprintf("c08 plan %d %d", seed, mc), p})
 		}
@@ -1270,6 +1482,35 @@ func runC08(c *ctx) {
 	close(ch)
 	wg.Wait()
 
+	// the model's answers for the first pass are fetched in parallel (one driver process each)
+	askCache := map[string]string{}
+	{
+		var amu sync.Mutex
+		var awg sync.WaitGroup
+		asem := make(chan struct{}, vlib.Conc(12))
+		for i := range jobs {
+			r := runs[i]
+			if r.openErr != nil || !r.aligned {
+				continue
+			}
+			ver := "1.0"
+			if r.plan.v11 {
+				ver = "1.1"
+			}
+			line := "c08 sess " + ver + " " + c08Script(r, nil, false)
+			awg.Add(1)
+			go func() {
+				defer awg.Done()
+				asem <- struct{}{}
+				a := c.ask([]string{line})[0]
+				<-asem
+				amu.Lock()
+				askCache[line] = a
+				amu.Unlock()
+			}()
+		}
+		awg.Wait()
+	}
 	evaluate := func(i int, run c08run, final bool) (retry bool) {
 		jb := jobs[i]
 		p := run.plan
@@ -1294,7 +1535,10 @@ func runC08(c *ctx) {
 		if p.v11 {
 			ver = "1.1"
 		}
-		ans := c.ask([]string{"c08 sess " + ver + " " + script})[0]
+		ans, cached := askCache["c08 sess "+ver+" "+script]
+		if !cached {
+			ans = c.ask([]string{"c08 sess " + ver + " " + script})[0]
+		}
 		f := strings.Fields(ans)
 		if len(f) != 6 {
 			res.Fail("machinery", jb.line, "driver answered "+ans, "driver")
@@ -1715,6 +1959,43 @@ func runC08(c *ctx) {
 		if p.selfClose {
 			res.Count("option:ForceSelfClosingTags")
 		}
+		switch {
+		case p.searchDepth == 0:
+			res.Count("option:PromptSearchDepth:default")
+		case p.searchDepth <= 80:
+			res.Count("option:PromptSearchDepth:16..80")
+		default:
+			res.Count("option:PromptSearchDepth:huge")
+		}
+		res.Count(fmt.Sprintf("option:ReadDelay:%dus", p.readDelayUs))
+		res.Count(fmt.Sprintf("option:TransportReadSize:%d", p.readSize))
+		res.Count(fmt.Sprintf("option:ReturnChar:%q", p.returnChar))
+		for _, cl := range p.calls {
+			pay := bytes.Replace(cl.payload, []byte(c08IDToken), []byte("101"), 1)
+			off := bytes.Index(pay, []byte(`message-id="101"`))
+			switch {
+			case off < 0:
+			case off < 30:
+				res.Count("message-id-offset:<30")
+			case off < 200:
+				res.Count("message-id-offset:30..199")
+			case off < 1000:
+				res.Count("message-id-offset:200..999")
+			case off < 5000:
+				res.Count("message-id-offset:1000..4999")
+			default:
+				res.Count("message-id-offset:>=5000")
+			}
+			switch {
+			case len(pay) >= 100*1024:
+				res.Count("reply-size:>=100KB")
+			case len(pay) >= 4096:
+				res.Count("reply-size:4KB..100KB")
+			}
+			if bytes.Contains(pay, []byte("<nc:rpc-reply")) {
+				res.Count("reply-with-nc-prefix")
+			}
+		}
 		if p.faultAt > 0 {
 			res.Count("history:transport-read-fault-midsession")
 		}
@@ -1944,7 +2225,11 @@ func c08panicLine(out string) string {
 
 func c08cause(reason string) string {
 	var out []string
-	for _, r := range strings.Split(reason, "+") {
+	parts := strings.Split(reason, "+")
+	for _, r := range parts {
+		if r == "big" && len(parts) > 1 {
+			continue // too large for the model driver to evaluate every hypothesis; the others say why
+		}
 		switch r {
 		case "id":
 			out = append(out, "msgid-split-across-chunks")
